@@ -7,6 +7,7 @@ package c20
 // requestBlocks + bSyncQueue (AddBlock in index order), then ordinary block processing.
 
 import (
+	"runtime"
 	"bytes"
 	"errors"
 	"fmt"
@@ -41,6 +42,10 @@ type Step struct {
 	Dup     int    `json:"dup,omitempty"`     // mpt: duplicated nodes added to the answer
 	Wrong   []int  `json:"wrong,omitempty"`   // mpt: 1 altered byte, 2 node of another height's trie, 3 valid node nobody asked for, 4 truncated node, 5 serialised empty node, 6 requested node sent ONLY in a form with one child serialised inline (same hash)
 	Gap     bool   `json:"gap,omitempty"`     // headers: chunk that does not connect (must be rejected)
+	// Race (feed in the state stage, memory backend): the node's periodic flush (persist timer of Blockchain.Run) is
+	// played by a goroutine flushing in a tight loop while the data is added, so that commits fall BETWEEN the writes
+	// of one operation; up to two of the commits made meanwhile are then examined as crash points.
+	Race bool `json:"race,omitempty"`
 }
 
 // SCase is one state-sync scenario.
@@ -52,6 +57,7 @@ type SCase struct {
 	InitAt    int            `json:"init_at"` // height of the source when the syncing node starts
 	Steps     []Step         `json:"steps"`
 	CrashJump bool           `json:"crash_jump"`          // enumerate crash points inside the last AddBlock / state jump
+	RaceJump  bool           `json:"race_jump,omitempty"` // ... with the periodic flush racing against the jump (see Step.Race)
 	Tail      []int          `json:"tail"`                // per block after P: bit0 flush+GC tick, bit1 restart
 	FinalBad  int            `json:"final_bad,omitempty"` // !=0: the batch that completes the MPT (sent once <= FinalAt nodes are unknown) ends with a wrong node of this kind
 	FinalAt   int            `json:"final_at,omitempty"`
@@ -84,6 +90,7 @@ func genStep(t *rapid.T) Step {
 			s.Wrong = rapid.SliceOfN(rapid.IntRange(1, 6), 1, 3).Draw(t, "wrong")
 		}
 		s.Gap = rapid.IntRange(0, 9).Draw(t, "gap") == 0
+		s.Race = rapid.IntRange(0, 5).Draw(t, "race") == 0
 	case "grow":
 		s.A = rapid.IntRange(1, 3).Draw(t, "delta")
 	}
@@ -137,6 +144,7 @@ func genSCase(t *rapid.T) SCase {
 	}
 	c.Steps = rapid.SliceOfN(rapid.Custom(genStep), 20, 70).Draw(t, "steps")
 	c.CrashJump = rapid.Bool().Draw(t, "crash_jump")
+	c.RaceJump = c.CrashJump && rapid.Bool().Draw(t, "race_jump")
 	c.FinalBad = rapid.SampledFrom([]int{0, 0, 0, 4, 5, 1}).Draw(t, "final_bad")
 	c.FinalAt = rapid.IntRange(1, 6).Draw(t, "final_at")
 	if rapid.IntRange(0, 2).Draw(t, "has_trusted") == 0 {
@@ -223,6 +231,27 @@ func newSyncNode(cfg config.Blockchain, backend string) (*syncNode, error) {
 		return nil, err
 	}
 	return n, nil
+}
+
+// startFlusher plays the persist timer of Blockchain.Run at the highest possible rate: a goroutine flushing the node's
+// write cache in a loop until the returned function is called (which waits for it).
+func (n *syncNode) startFlusher() func() {
+	stop := make(chan struct{})
+	done := make(chan struct{})
+	bc := n.bc
+	go func() {
+		defer close(done)
+		for {
+			select {
+			case <-stop:
+				return
+			default:
+				_ = bc.VerifPersist()
+				runtime.Gosched()
+			}
+		}
+	}()
+	return func() { close(stop); <-done }
 }
 
 // crashCopy returns a stopped-less twin of a memory node as it would be found after a crash that kept exactly the
@@ -463,6 +492,46 @@ func (d *driver) attach(where string) error {
 	return d.getters(where)
 }
 
+// raceTwins examines up to two of the commits c0 < k <= c1 made while data was added with the periodic flush racing:
+// a node that crashed keeping exactly k commits must start, finish the synchronisation with faithful peers and end
+// equal to the source at the sync point (and stay in lockstep for a few blocks).
+func (d *driver) raceTwins(c0, c1 int, seed uint64) error {
+	if c1 <= c0 {
+		return nil
+	}
+	d.o.Labelf("raced-feed-commits:%s", bucket(c1-c0))
+	rnd := prng(seed ^ 0x5ace)
+	picks := map[int]bool{c0 + 1 + rnd.intn(c1-c0): true, c0 + 1 + rnd.intn(c1-c0): true}
+	for k := range picks {
+		t, err := d.n.crashCopy(k)
+		who := fmt.Sprintf("node crashed in the state stage keeping %d of the %d commits made while a batch was added with the periodic flush racing", k-c0, c1-c0)
+		if err != nil {
+			return fmt.Errorf("%s: node does not start: %v", who, err)
+		}
+		td := &driver{c: d.c, o: d.o, src: d.src, n: t, peerH: d.peerH, capH: d.capH, plain: true, trusted: d.trusted}
+		td.stats.restartStage = map[string]int{}
+		err = func() error {
+			if err := td.attach(who); err != nil {
+				return err
+			}
+			if err := td.run(); err != nil {
+				return fmt.Errorf("%s: %v", who, err)
+			}
+			if err := td.atSyncPoint(who); err != nil {
+				return err
+			}
+			return td.lockstep(who, min(d.src.P+3, d.src.total), false)
+		}()
+		td.n.close()
+		d.o.Units(1)
+		d.o.Label("raced-feed-crash-twin")
+		if err != nil {
+			return err
+		}
+	}
+	return nil
+}
+
 var stageRank = map[string]int{"none": 0, "headers": 1, "state": 2, "blocks": 3, "inactive": 4}
 
 func (d *driver) run() error {
@@ -555,10 +624,23 @@ func (d *driver) run() error {
 		case "headers":
 			err = d.feedHeaders(st)
 		case "state":
+			racing := st.Race && !d.plain && d.n.rec != nil
+			var stopFlusher func()
+			c0 := 0
+			if racing {
+				c0 = d.n.rec.Count()
+				stopFlusher = d.n.startFlusher()
+			}
 			if d.c.Storage {
 				err = d.feedStorage(st)
 			} else {
 				err = d.feedMPT(st)
+			}
+			if racing {
+				stopFlusher()
+				if err == nil {
+					err = d.raceTwins(c0, d.n.rec.Count(), st.Seed)
+				}
 			}
 		case "blocks":
 			err = d.feedBlock(st)
@@ -954,7 +1036,16 @@ func (d *driver) feedBlock(st Step) error {
 	if next == d.src.P && d.jumpHook != nil {
 		d.jumpHook()
 	}
-	if err := d.mod.AddBlock(d.src.blk(next)); err != nil {
+	var stopFlusher func()
+	if next == d.src.P && d.c.RaceJump && !d.plain && d.n.rec != nil {
+		stopFlusher = d.n.startFlusher()
+		d.o.Label("jump-raced-by-the-periodic-flush")
+	}
+	err := d.mod.AddBlock(d.src.blk(next))
+	if stopFlusher != nil {
+		stopFlusher()
+	}
+	if err != nil {
 		return fmt.Errorf("AddBlock(%d) of the genuine next block failed (sync point %d): %v", next, d.src.P, err)
 	}
 	if next < d.src.P {
